@@ -9,7 +9,7 @@ def bounded_check(module, label, props):
         if prop not in props:
             return
         p = subprocess.run([NATIVE_PY, "-W", "ignore", os.path.join(HERE, "bounded", "run.py"), module, repo, tier, str(seed)],
-                           stdout=subprocess.PIPE, stderr=subprocess.PIPE, text=True, env=dict(os.environ, PYTHONDONTWRITEBYTECODE="1"))
+                           stdout=subprocess.PIPE, stderr=subprocess.PIPE, text=True, env=dict(os.environ, PYTHONDONTWRITEBYTECODE="1", VERIF_PROP=prop))
         try:
             d = json.loads(p.stdout.strip().splitlines()[-1])
         except Exception:
